@@ -337,4 +337,36 @@ theorem c18_cancel_stops_all (P : Params) (fixed : Bool) {s s₁ : Sys} (hkill :
 example : ∃ s, run {} true (init {}) (exRun ++ [.kill, .ret 3 .ctx, .ret 2 .ctx]) = some s ∧ s.killed = true ∧ s.live = [] ∧
     s.nextIid = 4 ∧ step {} true s (.died ["c"] .ctx) = none := by decide
 
+/-- **Cancel reaches every running service, also below a completed one.**  "cancelling the supervisor's context
+stops every service": at the `kill` step and along any continuation, *every* goroutine that is still running
+holds a cancelled context — whatever the states of the nodes above it.  In particular a service whose parent (or
+the root runnable itself) has signalled `DONE` and returned `nil` — the set-up-only pattern, whose node is `DONE`
+with `exited = true` and whose own context is never cancelled while the supervisor lives — is reached too:
+`processKill` walks the whole tree, it does not stop at nodes whose runnable has returned.  (What a service does
+once its context is cancelled — its exit latency — is the service's business; the statement's "stops" is this
+cancellation plus `c18_cancel_stops_all`'s "nothing is started any more".) -/
+theorem c18_cancel_reaches_every_instance (P : Params) (fixed : Bool) {s s₁ : Sys} (hkill : step P fixed s .kill = some s₁) :
+    ∀ acts s₂, run P fixed s₁ acts = some s₂ → ∀ i ∈ s₂.live, instCancelled s₂.tree i = true := by
+  intro acts s₂ h i _
+  have hc := ((c18_cancel_stops_all P fixed hkill).2.2 acts s₂ h).2.2.2
+  unfold instCancelled
+  cases hf : find s₂.tree i.dn with
+  | none => rfl
+  | some n =>
+    simp only
+    split
+    · exact hc n (find_some hf).1
+    · rfl
+
+/-- the root runnable starts `root.a`, signals Healthy and Done and returns nil (processed: the root node is `DONE`
+and marked as returned, its context live); `root.a` keeps running.  The supervisor context is then cancelled. -/
+def completedRootRun : List Act :=
+  [.sched [], .run 0 ["a"], .sig 0 .healthy, .sig 0 .done, .sched ["a"], .sig 1 .healthy, .ret 0 .nil, .died [] .nil]
+
+example : ∃ s, run {} true (init {}) completedRootRun = some s ∧
+    (∃ n ∈ s.tree, n.dn = [] ∧ n.state = .done ∧ n.exited = true ∧ n.cancelled = false) ∧
+    s.live.map (·.dn) = [["a"]] ∧ s.live.all (instCancelled s.tree) = false ∧
+    ∃ s₁, step {} true s .kill = some s₁ ∧ s₁.live.map (·.dn) = [["a"]] ∧ s₁.live.all (instCancelled s₁.tree) = true := by
+  decide
+
 end Whv.C18
